@@ -45,7 +45,8 @@ RULE = ("prepared screens: S.gen_raw, arity 1-3 (mostly 1-2), 2-8 plates, 4..14 
         "hold-out + mask, saved, seeds 0 and 7) and 45% of the arity-2 training histories end with the real batchie.cli.train_model.main() on the "
         "saved screen with a recording subclass of SparseDrugCombo found by the CLI's introspection: the (sample id, treatment ids) reaching "
         "_add_observations decode through the PREPARED screen's mappings to the row's names/doses, the rows are the observed rows, and the saved "
-        "thetas predict on the test / prepared screen exactly what a reference trained in-process with the prepared ids (same seed) predicts. "
+        "thetas predict on the test / prepared screen exactly what a reference trained in-process with the prepared ids (same seed) predicts; "
+        "tie: the rows and ids the model received equal `trainrows` of the Lean model (Model/TrainStage.lean) on the saved stage. "
         "class.verbose-logging: every 7th prepared screen (and one corpus case) runs entirely under vlib.common.verbose_logging(), CLI mains with "
         "--verbose (replay re-enters it).  Hardening classes (class.*): every screen object snapshotted (all attributes) around every step "
         "and at the end; mapping/control attributes and all ExperimentSpace properties compared by introspection at every stage; after every "
@@ -76,6 +77,7 @@ WITNESS_RAW = dict(ctrl="control", arity=2,
 
 # ----------------------------------------------------------------------------- generators (rng is duck-typed in batchie)
 
+TRAIN_TIES = []          # (driver line, what the recording model received, case): compared with the model's `trainrows` by run()
 UNEXPECTED = []          # (where, detail): a wrapper of the harness met a call form it could not read -- drained into a tie by run()
 
 
@@ -565,6 +567,15 @@ def train_stage(prep, stage, case, tmp, res, step):
                              {"id": ref.t_id.get(key), "condition_of_that_id_in_prepared_screen": ref.t_inv.get(tid)}, signature=SIG_TRAIN)
                     return True
             rows.append((sname, tuple(rec["treatment_names"][i]), tuple(rec["treatment_doses"][i]), rec["observations"][i]))
+    if readable:
+        # tie: the Lean model of the training stage (`TrainStage.trainRows` on the saved stage screen) hands over the same rows with
+        # the same ids, in the same order
+        recv = "ok " + S.lst(("%s|%s|%s|%d|%d|%s" % (S.name_tok(rec["sample_names"][i]), S.lst(S.name_tok(x) for x in rec["treatment_names"][i]),
+                                                      S.lst(S.dose_tok(x) for x in rec["treatment_doses"][i]), rec["observations"][i],
+                                                      rec["sample_ids"][i], S.show_ids(rec["treatment_ids"][i]))
+                              for rec in got for i in range(len(rec["sample_ids"]))), ";")
+        TRAIN_TIES.append(("trainrows " + S.raw_to_tokens(S.raw_of_screen(stage, with_maps=True)), recv,
+                           {"side": case.get("side"), "split": case.get("split"), "ops": case.get("ops"), "premask": case.get("premask"), "step": step}))
     if readable and sorted(rows) != want_rows:
         res.fail("the rows reaching the model are not the observed rows of the training screen", c,
                  {"step": step, "n_received": len(rows)}, {"n_observed": len(want_rows)}, signature=SIG_TRAIN)
@@ -1137,6 +1148,14 @@ def run(ctx, res):
         if n_ < 3:
             res.disagree("C03:harness-wrapper", {"wrapper": where_}, detail_[:300], "a call the wrapper can read")
     del UNEXPECTED[:]
+    if ctx.driver is not None and TRAIN_TIES:
+        got = ctx.driver.ask([x[0] for x in TRAIN_TIES])
+        for (line, recv, info_), g in zip(TRAIN_TIES, got):
+            res.count("tie.trainrows")
+            if g != recv:
+                res.disagree("C03:trainrows", dict(info_, line=line[:3000]), recv[:1500], g[:1500])
+        res.traces_validated += len(TRAIN_TIES)
+    del TRAIN_TIES[:]
     if ctx.driver is not None:
         got = ctx.driver.ask([q[0] for q in queue])
         for (line, entries, case), g in zip(queue, got):
